@@ -16,9 +16,7 @@ static void ghost_sha_setup(const IN_gh *g) {
 }
 /* case split of the update units over "buffered + new length fits 32 bits" (variants in the json): together the
  * two variants cover every len; the split only separates the attribution of the >= 4 GiB single-update wrap */
-#if defined(VERIF_SMALL_MSG)                                     /* bounded quick variant: short updates only */
-#define LEN_CASE(ol, len) V_ASSUME((len) <= VERIF_SMALL_MSG)
-#elif defined(VERIF_LEN_FITS) && defined(VERIF_CASE_NOBLOCK)      /* no block completes */
+#if defined(VERIF_LEN_FITS) && defined(VERIF_CASE_NOBLOCK)      /* no block completes */
 #define LEN_CASE(ol, len) V_ASSUME((g_u64)(ol) + (g_u64)(len) < VERIF_BS)
 #elif defined(VERIF_LEN_FITS) && defined(VERIF_CASE_BLOCKS)     /* at least one block completes */
 #define LEN_CASE(ol, len) V_ASSUME((len) <= SHA_MAX_SINGLE_UPDATE && (g_u64)(ol) + (g_u64)(len) >= VERIF_BS)
@@ -42,8 +40,6 @@ void h_sha256_update(void) {
     sha256_update(c, m, in.len);
 #ifdef VERIF_LEN_WRAPS
     V_COVER(in.c.len == 1 && in.len == 0xffffffffu); V_COVER(in.c.len == 63);
-#elif defined(VERIF_SMALL_MSG)
-    V_COVER(g_tb_total == in.g.tb_total + 1); V_COVER(g_tb_total == in.g.tb_total + 2 && g_tby_seen == in.g.tby_seen + 1); V_COVER(g_tb_total == in.g.tb_total && in.len > 0);
 #elif defined(VERIF_CASE_NOBLOCK)
     V_COVER(g_tb_total == in.g.tb_total && in.c.len > 0 && in.len > 0); V_COVER(in.len == 0); V_COVER(c->len == 5 && in.c.len == 2);
 #else
@@ -87,8 +83,6 @@ void h_sha512_update(void) {
     sha512_update(c, m, in.len);
 #ifdef VERIF_LEN_WRAPS
     V_COVER(in.c.len == 1 && in.len == 0xffffffffu); V_COVER(in.c.len == 63);
-#elif defined(VERIF_SMALL_MSG)
-    V_COVER(g_tb_total == in.g.tb_total + 1); V_COVER(g_tb_total == in.g.tb_total + 2 && g_tby_seen == in.g.tby_seen + 1); V_COVER(g_tb_total == in.g.tb_total && in.len > 0);
 #elif defined(VERIF_CASE_NOBLOCK)
     V_COVER(g_tb_total == in.g.tb_total && in.c.len > 0 && in.len > 0); V_COVER(in.len == 0); V_COVER(c->len == 5 && in.c.len == 2);
 #else
